@@ -288,7 +288,7 @@ func C02(tier string) int {
 	for _, es := range seqs(c02alphabet, 2) {
 		cases = append(cases, c02case{es, 1, []string{Carol, gK2}, 2, "PostOutbox"})
 	}
-	res.Rule = fmt.Sprintf("federation graphs over {dereferencable actor, embedded actor, actor with stored inbox (remote inbox differing), actor with stored = remote inbox, missing, garbled, unknown-type, Collection K1 with every member sequence of length <= %d over 8 nodes, OrderedCollection K2 = [actor, K1], page P1 = [actor, P1, K2] (cycles), Public in both IRI spellings, the sender}; every ordered sequence of <= %d addressed entries over that 15-entry alphabet, placed in 'to' only / spread over to,bto,cc,bcc,audience / reversed; depth limit %v; entry points Send and client POST; %d runs; oracle: an independent recursive function over the graph description gives the expected inbox set and the IRIs that may be dereferenced; non-trivial = runs in which something was dereferenced or delivered, distinct by (entries, placement, K1, limit)", len(k1s[len(k1s)-1]), maxEntries, limits, len(cases))
+	res.Rule = fmt.Sprintf("federation graphs over {dereferencable actor, embedded actor, actor with stored inbox (remote inbox differing), actor with stored = remote inbox, missing, garbled, unknown-type, Collection K1 with every member sequence of length <= %d over 8 nodes, OrderedCollection K2 = [actor, K1], page P1 = [actor, P1, K2] (cycles), Public in both IRI spellings, the sender}; every ordered sequence of <= %d addressed entries over that 15-entry alphabet, placed in 'to' only / spread over to,bto,cc,bcc,audience / reversed; depth limit %v; entry points Send and client POST; %d runs; plus all two-delivery histories through one actor instance over 2 senders x 5 addressees (first) x 25 addressee pairs (second); oracle: an independent recursive function over the graph description gives the expected inbox set and the IRIs that may be dereferenced; non-trivial = runs in which something was dereferenced or delivered, distinct by (entries, placement, K1, limit)", len(k1s[len(k1s)-1]), maxEntries, limits, len(cases))
 	res.Assumptions = []string{"order of recipients and how often one IRI is dereferenced are not asserted",
 		"documents that decode to a known non-actor type or to an actor without inbox are outside the alphabet (the statement is silent; C11 covers crashes)",
 		"the stored inbox is consulted for directly addressed actors only, as the code does; collection members with a stored inbox have stored == remote inbox"}
@@ -410,6 +410,68 @@ func C02(tier string) int {
 			res.Violate(v.key, v.what, v.rep)
 		}
 	})
+	// ---- histories: two deliveries through ONE actor instance, from the same or different outboxes ----
+	// (the expected set of the second delivery is computed for ITS sender; anything a change to the
+	// library remembers from the first delivery shows up here)
+	nHist := 0
+	senders := []string{Alice, Bob}
+	hAlpha := []string{Alice, Bob, Carol, Dave, gK1}
+	for _, s1 := range senders {
+		for _, s2 := range senders {
+			for _, e1 := range hAlpha {
+				for _, e2a := range hAlpha {
+					for _, e2b := range hAlpha {
+						g := baseGraph([]string{Alice, Bob, Carol})
+						g[Bob] = &gnode{kind: "actor", inbox: Bob + "/inbox"}
+						a := BaseWorld()
+						g.install(a)
+						a.PutRemote(Bob, person(Bob))
+						a.MaxDeliverDepth = 2
+						run := func(sender string, entries []string) (*RunOut, map[string]bool) {
+							body := Doc("Announce", "", "actor", sender, "object", RNote, "to", func() interface{} {
+								l := L{}
+								for _, e := range entries {
+									l = append(l, e)
+								}
+								return l
+							}())
+							sc := &Scenario{Name: "c02-history", Kind: ap.Both, Entry: "Send", URL: outbox(sender), Body: body}
+							nDel := len(a.Deliveries)
+							out := sc.On(a, nil)
+							want, _ := g.expected(entries, 2, sender)
+							if out.Err != nil || out.Panic != nil || len(a.Deliveries) != nDel+1 {
+								return out, nil
+							}
+							got := map[string]bool{}
+							for _, t := range a.Deliveries[nDel].To {
+								got[t] = true
+							}
+							if !sameSet(got, want) {
+								return out, want
+							}
+							return out, nil
+						}
+						nHist++
+						res.Case(fmt.Sprintf("history|%s|%s|%s|%s|%s", shortID(s1), shortID(s2), shortID(e1), shortID(e2a), shortID(e2b)))
+						if _, bad := run(s1, []string{e1}); bad != nil {
+							continue // the single-delivery part judges this
+						}
+						nDel := len(a.Deliveries)
+						if _, bad := run(s2, []string{e2a, e2b}); bad != nil {
+							got := []string{}
+							if len(a.Deliveries) > nDel {
+								got = a.Deliveries[len(a.Deliveries)-1].To
+							}
+							res.Violate("history|second-delivery-wrong-recipients|same-sender="+fmt.Sprint(s1 == s2),
+								fmt.Sprintf("after a delivery from %s to [%s], a delivery from %s to [%s %s] reaches %v, expected %v", shortID(s1), shortID(e1), shortID(s2), shortID(e2a), shortID(e2b), shortIDs(got), setKeys(bad)),
+								M{"check": "C02", "part": "history", "first": M{"sender": s1, "to": e1}, "second": M{"sender": s2, "to": L{e2a, e2b}}})
+						}
+					}
+				}
+			}
+		}
+	}
+	res.Extra["two_delivery_histories"] = nHist
 	for _, i := range []int{len(cases) / 7, len(cases) / 2, len(cases) - 3} {
 		res.Sample(M{"case": cases[i].String(), "body": cases[i].body()})
 	}
